@@ -26,6 +26,7 @@ import (
 	fwdctrl "github.com/noble-assets/orbiter/v2/controller/forwarding"
 	"github.com/noble-assets/orbiter/v2/entrypoint"
 	"github.com/noble-assets/orbiter/v2/keeper"
+	orbitertypes "github.com/noble-assets/orbiter/v2/types"
 	"github.com/noble-assets/orbiter/v2/types/core"
 	"github.com/noble-assets/orbiter/v2/zzverif/verif"
 )
@@ -315,8 +316,25 @@ type World struct {
 // NewWorld wires the module. faults: every fallible environment call draws a failure bit.
 func NewWorld(faults bool) *World { return newWorldWith(faults, false) }
 
+// newWorldSwap registers the given controller under ACTION_SWAP (its ledger is set to the world's).
+func newWorldSwap(sw *denomSwap) *World {
+	w := newWorldCustom(false, sw)
+	sw.l = w.L
+	return w
+}
+
 // newWorldWith: withSwap additionally registers a recording stub controller under ACTION_SWAP.
 func newWorldWith(faults, withSwap bool) *World {
+	if withSwap {
+		st := &swapStub{}
+		w := newWorldCustom(faults, st)
+		w.swap = st
+		return w
+	}
+	return newWorldCustom(faults, nil)
+}
+
+func newWorldCustom(faults bool, extra orbitertypes.ActionController) *World {
 	w := &World{}
 	ctx, svc := verif.NewEnv()
 	w.Ctx = verif.SDKContext(ctx)
@@ -339,9 +357,8 @@ func newWorldWith(faults, withSwap bool) *World {
 	must(w.K.SetForwardingControllers(cc, hc, ic))
 	w.Fee, err = actionctrl.NewFeeController(nopLogger{}, w.Ev, w.L)
 	must(err)
-	if withSwap {
-		w.swap = &swapStub{}
-		must(w.K.SetActionControllers(w.Fee, w.swap))
+	if extra != nil {
+		must(w.K.SetActionControllers(w.Fee, extra))
 	} else {
 		must(w.K.SetActionControllers(w.Fee))
 	}
